@@ -26,6 +26,8 @@ type runner struct {
 	rx   hx.CaseFile
 	muc  hx.CaseFile
 	ibb  hx.CaseFile
+	life hx.CaseFile
+	iw   hx.CaseFile
 }
 
 // maxSlow: after this many runs of one family ended in a watchdog timeout (a
@@ -336,6 +338,8 @@ func main() {
 	x.rx = hx.CaseFile{Name: "rx", Imports: importsExt, Ok: "rx_case_ok", Type: "rxcase"}
 	x.muc = hx.CaseFile{Name: "muc", Imports: importsExt, Ok: "muc_case_ok", Type: "muccase"}
 	x.ibb = hx.CaseFile{Name: "ibb", Imports: importsExt, Ok: "ibbf_case_ok", Type: "ibbfcase"}
+	x.life = hx.CaseFile{Name: "life", Imports: importsLife, Ok: "rl_case_ok", Type: "rlcase"}
+	x.iw = hx.CaseFile{Name: "iw", Imports: importsLife, Ok: "iw_case_ok", Type: "iwcase"}
 	xmpp.VerifSetHook(hookDispatch)
 	currentPath = filepath.Join(o.Out, "current.json")
 	defer os.Remove(currentPath)
@@ -384,6 +388,14 @@ func main() {
 			x.ibbExpectStall()
 		case "ibb-accept":
 			x.ibbOpenWithoutAccept()
+		case "life":
+			var lc lifeCase
+			json.Unmarshal(rp.Case, &lc)
+			x.lifeRun(lc)
+		case "ibb-writer":
+			var cc iwCase
+			json.Unmarshal(rp.Case, &cc)
+			x.iwReplay(cc.Actions, "replay")
 		case "receipts-first-use", "race":
 			for i := 0; i < 8; i++ {
 				x.rxConcurrentFirstUse()
@@ -401,6 +413,9 @@ func main() {
 		}
 		for _, acts := range ibbCorpus {
 			x.ibbReplay(acts, "corpus")
+		}
+		for _, acts := range iwCorpus {
+			x.iwReplay(acts, "corpus")
 		}
 		x.ibbExpectStall()
 		x.ibbOpenWithoutAccept()
@@ -434,6 +449,10 @@ func main() {
 			x.mucWalk(r.Fork(), 4+r.Intn(16))
 			x.ibbWalk(r.Fork(), 4+r.Intn(16))
 		}
+		for i := 0; i < walks/8; i++ {
+			x.iwWalk(r.Fork(), 3+r.Intn(12))
+		}
+		x.lifeAll(r.Fork(), o.Thorough() || o.Search)
 	}
 	res.Rule = "forced schedules of the hand-off between blocking Send*/Encode*/Unmarshal*/Iter* calls and the serve loop: corpus, " +
 		"stateless enumeration of all interleavings for small configurations, seeded random walks (up to 4 concurrent calls, duplicate ids, " +
@@ -443,6 +462,8 @@ func main() {
 	res.CaseFiles = append(res.CaseFiles, x.rx.Write(o.Out, 400)...)
 	res.CaseFiles = append(res.CaseFiles, x.muc.Write(o.Out, 400)...)
 	res.CaseFiles = append(res.CaseFiles, x.ibb.Write(o.Out, 400)...)
-	res.Extra["model_cases"] = x.core.Len() + x.rx.Len() + x.muc.Len() + x.ibb.Len()
+	res.CaseFiles = append(res.CaseFiles, x.life.Write(o.Out, 400)...)
+	res.CaseFiles = append(res.CaseFiles, x.iw.Write(o.Out, 400)...)
+	res.Extra["model_cases"] = x.core.Len() + x.rx.Len() + x.muc.Len() + x.ibb.Len() + x.life.Len() + x.iw.Len()
 	res.Write(o.Out)
 }
